@@ -16,7 +16,7 @@ def gen():
 
 def msg_class(msg):
     out, last = [], False
-    for ch in str(msg)[:70]:
+    for ch in str(msg)[:48]:
         if ch.isdigit():
             if not last:
                 out.append("#")
@@ -96,6 +96,18 @@ def run():
                     break
     except Exception:
         pass
+    # distinct (carrier, font) pairs and distinct TheDraw fonts that were read back and compared (digests from the `sum` lines)
+    seen_f, seen_t = set(), set()
+    for sh in shards:
+        with open(sh) as f:
+            for ln in f:
+                if len(ln) < 4000 and '"ev":"sum"' in ln:
+                    e = json.loads(ln)
+                    if e.get("ok") == 1:
+                        if e.get("kind") == "font":
+                            seen_f.add(e["h"])
+                        else:
+                            seen_t.update(e["h"])
     R = lambda k: sum(int(r.get(k, 0)) for r in c.reports)
     c.evaluations = R("r4") + R("r5")
     c.extra["bitmap_font_round_trips"] = R("r4")
@@ -106,7 +118,9 @@ def run():
     c.extra["carrier_without_embedded_font"] = R("r9")
     c.extra["unrepresentable_refused"] = R("r10")
     c.extra["tlc_case_table"] = g
-    c.extra["distinct_nontrivial"] = R("r6") + R("r7")
+    c.extra["distinct_bitmap_cases"] = len(seen_f)
+    c.extra["distinct_tdf_fonts"] = len(seen_t)
+    c.extra["distinct_nontrivial"] = len(seen_f) + len(seen_t)
     c.extra["driver_wall_s"] = round(wall, 1)
     c.rule = ("R1: TLC checks on Fonts.tla (2/4 glyphs, heights 1..3, glyph bytes over {00,04,36,FF} and the PSF2 magic bytes) that decode o encode = id for PSF1, PSF2, raw, the CTerm font DCS "
               "(incl. base64), font blocks and the IcyDraw FONT chunk, that every truncation is rejected without an evaluation error, and that the sniffing loader reads raw data back iff it "
@@ -115,7 +129,8 @@ def run():
               "bundle-size cases), glyph bytes seeded random, plus every built-in font page 0..42 and every SAUCE font, are run through the real engine (to_psf2_bytes/from_bytes, "
               "convert_to_u8_data/create_8/from_basic, encode_as_ansi + ansi::Parser, XBin/ADF/IDF/IcyDraw save+load, as_tdf_bytes/create_font_bundle/from_tdf_bytes). R3: Trace_Fonts "
               "compares the recorded font in/out values (FontSurvives, TdfSurvives) and decodes the recorded carrier bytes with the specification's decoders (model layer). "
-              "distinct_nontrivial = bitmap fonts read back + TheDraw fonts compared (registers r6 + r7), each from its own seed stream / table row.")
+              "distinct_nontrivial = DISTINCT (carrier, font) pairs read back + DISTINCT TheDraw fonts written, read back and compared (64-bit digests of the recorded inputs); "
+              "registers r6 / r7 count them with multiplicity.")
     c.assumptions = ["glyph data of the TheDraw fonts read back is observed through the engine's re-encoding of them, decoded by Tdf.tla (TheDrawFont::char_table is private); names, types, spacing and the "
                      "defined-glyph pattern are observed directly (public fields, has_char)",
                      "fonts embedded in pictures carry a name different from the default font's (the XBin writer omits a font NAMED like the default one)",
